@@ -227,7 +227,62 @@ def run_parser(data, mode, regs, overridden, validate, cuts=None, file_path=None
     }
 
 
-def run_parser_reuse(datas, regs, overridden, validate):
+def run_parser_resilient(data, ends, regs, overridden, validate):
+    """A push parser fed element by element whose owner catches the error of a refused event and feeds on."""
+    from edxml import EDXMLPushParser
+    from edxml.error import EDXMLValidationError, EDXMLEventValidationError, EDXMLOntologyValidationError
+    log, errors = [], []
+
+    def idx_of(event):
+        return int(next(iter(event['p']))[1:]) if 'p' in event.get_properties() and event['p'] else int(next(iter(event['q']))[1:])
+
+    class P(EDXMLPushParser):
+        def _parsed_ontology(self, ontology):
+            super()._parsed_ontology(ontology)
+            log.append(['ont', sorted(ontology.get_event_type_names()), sorted(ontology.get_event_sources().keys())])
+
+        def _parsed_foreign_element(self, element):
+            log.append(['f', int(element.get('n')), elem_view(element)])
+    if overridden:
+        def _parsed_event(self, event):
+            log.append(['fb', idx_of(event)])
+        P._parsed_event = _parsed_event
+    parser = P(validate=validate, foreign_element_tags=[FTAG])
+    handlers = {}
+
+    def make_handler(hid):
+        def handler(event):
+            log.append(['h', hid, idx_of(event)])
+        return handler
+    for kind, keys, hid in regs:
+        h = handlers.setdefault(hid, make_handler(hid))
+        if kind == 'type':
+            parser.set_event_type_handler(keys, h)
+        else:
+            parser.set_event_source_handler(keys, h)
+    pos = 0
+    for c in list(ends) + [len(data)]:
+        if c <= pos:
+            continue
+        try:
+            parser.feed(data[pos:c])
+        except EDXMLEventValidationError:
+            errors.append('EDXMLEventValidationError')
+        except EDXMLOntologyValidationError:
+            errors.append('EDXMLOntologyValidationError')
+            break
+        except EDXMLValidationError:
+            errors.append('EDXMLValidationError')
+            break
+        except Exception as ex:  # noqa
+            errors.append('foreign:' + type(ex).__name__)
+            break
+        pos = c
+    return {'log': log, 'errors': errors, 'nEvents': parser.get_event_counter(),
+            'typeCount': sorted([t, parser.get_event_type_counter(t)] for t in TYPES)}
+
+
+def run_parser_reuse(datas, regs, overridden, validate, late_regs=None):
     """One instrumented pull parser given several documents one after the other (parse() again on the same object).
     Returns one observation per document; the callback log is kept per document."""
     mode, cuts, file_path = 'pull', None, None
@@ -278,7 +333,14 @@ def run_parser_reuse(datas, regs, overridden, validate):
         else:
             parser.set_event_source_handler(keys, h)
     observations = []
-    for data in datas:
+    for k, data in enumerate(datas):
+        for kind, keys, hid in (late_regs or {}).get(str(k), []):
+            # handlers registered between the documents
+            h = handlers.setdefault(hid, make_handler(hid))
+            if kind == 'type':
+                parser.set_event_type_handler(keys, h)
+            else:
+                parser.set_event_source_handler(keys, h)
         del log[:]
         del sizes[:]
         content.clear()
